@@ -123,3 +123,58 @@ def send_sync(chk):
     chk.ob('R17.6', "witness crate with %d Send+Sync assertions and 4 shared-reference thread witnesses type-checks" % n,
            ok, 'witness w_send_sync', 'send-sync-witness', err[-3000:] if not ok else None)
     chk.sample({"witness": "is_send_sync::<Interp1D<OwnedArcRepr<f64>, OwnedArcRepr<f64>, IxDyn, CubicSplineStrategy<OwnedArcRepr<f64>, IxDyn>>>()"})
+
+
+QDIMS = ["Ix0", "Ix1", "Ix2", "Ix3", "Ix4", "IxDyn"]
+_N = {"Ix0": 0, "Ix1": 1, "Ix2": 2, "Ix3": 3, "Ix4": 4, "Ix5": 5, "Ix6": 6}
+
+
+def _sum_dim(q, rest):
+    """ndarray's DimAdd: static + static = static if <= 6 else dynamic; anything + dynamic = dynamic"""
+    if q == "IxDyn" or rest == "IxDyn":
+        return "IxDyn"
+    n = _N[q] + _N[rest]
+    return "Ix%d" % n if n <= 6 else "IxDyn"
+
+
+def _smaller(d, k):
+    if d == "IxDyn":
+        return "IxDyn"
+    return "Ix%d" % (_N[d] - k)
+
+
+def result_types_source():
+    lines = [PRELUDE]
+    n = 0
+    for d in DIMS1:
+        for q in QDIMS:
+            out = _sum_dim(q, _smaller(d, 1))
+            lines.append("pub fn rt1_%s_%s(i: &Interp1D<OwnedRepr<f64>, OwnedRepr<f64>, %s, Linear>, q: &Array<f64, %s>) {"
+                         % (d, q, d, q))
+            lines.append("    let _: Array<f64, %s> = i.interp_array(q).unwrap();" % out)
+            lines.append("    let _: Array<f64, %s> = i.interp(0.0).unwrap();" % _smaller(d, 1))
+            lines.append("}")
+            n += 2
+    for d in DIMS2:
+        for q in QDIMS:
+            out = _sum_dim(q, _smaller(d, 2))
+            lines.append("pub fn rt2_%s_%s(i: &Interp2D<OwnedRepr<f64>, OwnedRepr<f64>, OwnedRepr<f64>, %s, Bilinear>, q: &Array<f64, %s>) {"
+                         % (d, q, d, q))
+            lines.append("    let _: Array<f64, %s> = i.interp_array(q, q).unwrap();" % out)
+            lines.append("    let _: Array<f64, %s> = i.interp(0.0, 0.0).unwrap();" % _smaller(d, 2))
+            lines.append("}")
+            n += 2
+    lines.append("pub fn rt_scalar(i: &Interp1D<OwnedRepr<f64>, OwnedRepr<f64>, Ix1, Linear>, j: &Interp2D<OwnedRepr<f64>, OwnedRepr<f64>, OwnedRepr<f64>, Ix2, Bilinear>) {")
+    lines.append("    let _: f64 = i.interp_scalar(0.0).unwrap(); let _: f64 = j.interp_scalar(0.0, 0.0).unwrap();")
+    lines.append("}")
+    n += 2
+    return "\n".join(lines), n
+
+
+def result_types(chk):
+    src, n = result_types_source()
+    ok, err = typecheck("w_result_types", src)
+    chk.note('result_type_ascriptions', n)
+    chk.ob('R9.6', "witness crate with %d result-type ascriptions (data dim Ix1..Ix6/IxDyn x query dim Ix0..Ix4/IxDyn, 1-D and 2-D) type-checks" % n,
+           ok, 'witness w_result_types', 'result-type-witness', err[-3000:] if not ok else None)
+    chk.sample({"witness": "let _: Array<f64, IxDyn> = i.interp_array(q)  // data Ix6, query Ix3: 3 + 5 > 6"})
